@@ -171,5 +171,8 @@ Model(f) ==
    sst |-> f.sst, xfs |-> f.xfs,
    names |-> IF f.attrs.dname = "" THEN <<>> ELSE <<[name |-> f.attrs.dname, text |-> "$A$1", local |-> -1]>>,
    opts |-> f.opts]
+(* every generated hyperlink has a target by the rule of Decode.tla, and is a place in the workbook iff it has no r:id *)
+LinksOk == \A i \in DOMAIN Links(file) : LET h == Links(file)[i] IN
+              ValidLink(h) /\ LinkUrl(h) # "" /\ (LinkIsPlace(h) <=> (h.hasloc /\ ~h.ext)) /\ (LinkPlaceDecided(h) \/ h.ext)
 Emit == (EmitReplay /\ phase = "done") => PrintT(<<"REPLAY", ToJson(Model(file))>>)
 =============================================================================
